@@ -18,6 +18,9 @@ theorem run_append (s : St) (a b : List Step) : run s (a ++ b) = run (run s a) b
 def Along (P : St → Prop) (s : St) (steps : List Step) : Prop :=
   ∀ k, k ≤ steps.length → P (run s (steps.take k))
 
+/-- the invariant holds for some ghost that satisfies `Q` -/
+abbrev InvQ (Q : Ghost → Prop) (s : St) : Prop := ∃ G', Inv G' s ∧ Q G'
+
 theorem along_nil {P : St → Prop} {s : St} (h : P s) : Along P s [] := by
   intro k hk
   have : k = 0 := by simpa using hk
@@ -299,8 +302,9 @@ def Ghost.durable (G : Ghost) (id : Nat) : Ghost := G.updPart id (fun p => { p w
 
 /-- `tag.type` and `metadata.json` through `WriteAtomic`: the part becomes ready before the second rename and
     durable with the last directory fsync. -/
-theorem seal_part {G : Ghost} {s : St} {ps : PartS} (hB : Built G s ps) :
-    Along (fun s => ∃ G', Inv G' s) s
+theorem seal_part {G : Ghost} {s : St} {ps : PartS} (hB : Built G s ps) (Q : Ghost → Prop)
+    (q0 : Q G) (q1 : Q (G.ready ps.id)) (q2 : Q ((G.ready ps.id).durable ps.id)) :
+    Along (InvQ Q) s
       (writeAtomic (pfile ps.id .tagType) tagTypeContent ++ writeAtomic (pfile ps.id .metadata) (encList ps.bat)) ∧
     Inv ((G.ready ps.id).durable ps.id)
       (run s (writeAtomic (pfile ps.id .tagType) tagTypeContent ++
@@ -505,22 +509,22 @@ theorem seal_part {G : Ghost} {s : St} {ps : PartS} (hB : Built G s ps) :
   · apply along_append
     · rw [writeAtomic_pfile]
       apply along_append
-      · exact along_mono (fun _ hh => ⟨G, hh⟩) hA1
+      · exact along_mono (fun _ hh => ⟨G, hh, q0⟩) hA1
       · rw [← hs4]
-        refine along_cons ⟨G, h4⟩ ?_
+        refine along_cons ⟨G, h4, q0⟩ ?_
         rw [← hs5]
-        refine along_cons ⟨G, h5⟩ ?_
+        refine along_cons ⟨G, h5, q0⟩ ?_
         rw [← hs6]
-        exact along_nil ⟨G, h6⟩
+        exact along_nil ⟨G, h6, q0⟩
     · rw [hrun1, writeAtomic_pfile]
       apply along_append
-      · exact along_mono (fun _ hh => ⟨G, hh⟩) hA2
+      · exact along_mono (fun _ hh => ⟨G, hh, q0⟩) hA2
       · rw [← hs10]
-        refine along_cons ⟨_, h10r⟩ ?_
+        refine along_cons ⟨_, h10r, q1⟩ ?_
         rw [← hs11]
-        refine along_cons ⟨_, h11⟩ ?_
+        refine along_cons ⟨_, h11, q1⟩ ?_
         rw [← hs12]
-        exact along_nil ⟨_, h12d⟩
+        exact along_nil ⟨_, h12d, q2⟩
   · rw [run_append, hrun1, hrun2]
     exact h12d
 
